@@ -82,8 +82,44 @@ class RecList(list):
         super().append(m)
 
 
+def _vtext(v):
+    """text of a plain value; a class stored as value (RepeatingTagError marker of the decoder) shows by name"""
+    return v if isinstance(v, str) else "<" + getattr(v, "__name__", type(v).__name__) + ">"
+
+
+def flat_tags(container):
+    """fields in wire order: a parsed repeating group is its counter followed by the fields of its items"""
+    out = []
+    for t, v in container.tags.items():
+        groups = getattr(v, "groups", None)
+        if groups is not None:
+            out.append((int(t), str(len(groups))))
+            for g in groups:
+                out += flat_tags(g)
+        else:
+            out.append((int(t), _vtext(v)))
+    return out
+
+
+def struct_tags(container):
+    """structure as the application sees it: groups stay groups"""
+    out = []
+    for t, v in container.tags.items():
+        groups = getattr(v, "groups", None)
+        if groups is not None:
+            out.append([int(t), [struct_tags(g) for g in groups]])
+        else:
+            out.append([int(t), _vtext(v)])
+    return out
+
+
 def msg_fields(m):
-    return (str(m.msg_type.value if hasattr(m.msg_type, "value") else m.msg_type), [(int(t), v) for t, v in m.tags.items()])
+    return (str(m.msg_type.value if hasattr(m.msg_type, "value") else m.msg_type), flat_tags(m))
+
+
+def delivered_struct(eff):
+    """what the hooks were handed (on_message / on_logout), groups kept"""
+    return [[e[0], str(getattr(e[1].msg_type, "value", e[1].msg_type)), struct_tags(e[1])] for e in eff if e[0] in ("D", "LO")]
 
 
 def canon(eff, acceptor_of_tester=False):
@@ -157,22 +193,91 @@ def make_msg(spec):
         pass
     m = FIXMessage(mt)
     for t, v in tags:
-        m.set(t, v)
+        if isinstance(v, list):  # a repeating group: list of items, each a list of (tag, value)
+            from asyncfix.message import FIXContainer
+
+            items = []
+            for it in v:
+                c = FIXContainer()
+                for tt, vv in it:
+                    c.set(tt, vv)
+                items.append(c)
+            m.set_group(t, items)
+        else:
+            m.set(t, v)
     return m
 
 
-def make_initiator(effI, log, ni, no, hb=30):
-    """a real AsyncFIXClient, counters set through the journal, connected through its own connect()"""
+def flat_spec(spec):
+    """the message as the (group-less) session model sees it: fields in wire order"""
+    mt, tags = spec
+    out = []
+    for t, v in tags:
+        if isinstance(v, list):
+            out.append((t, str(len(v))))
+            for it in v:
+                out += [(tt, str(vv)) for tt, vv in it]
+        else:
+            out.append((t, str(v)))
+    return (mt, out)
+
+
+_PROTO = {}
+
+
+def protocol_class(name):
+    """initiator / real-acceptor configuration: the stock FIX 4.4 protocol or a user subclass of it"""
+    from asyncfix import FTag
+    from asyncfix.protocol import FIXProtocol44
+
+    if name not in _PROTO:
+        if name == "std":
+            _PROTO[name] = FIXProtocol44
+        elif name == "grp":  # one more repeating group (NoContraBrokers) and a custom group of user tags
+            class ProtoGrp(FIXProtocol44):
+                repeating_groups = dict(FIXProtocol44.repeating_groups)
+
+            ProtoGrp.repeating_groups[FTag.NoContraBrokers] = [FTag.ContraBroker, FTag.ContraTrader, FTag.ContraTradeQty,
+                                                              FTag.ContraTradeTime, FTag.ContraLegRefID]
+            ProtoGrp.repeating_groups["20001"] = ["20002", "20003"]
+            _PROTO[name] = ProtoGrp
+        elif name == "sess":  # other session_message_types
+            class ProtoSess(FIXProtocol44):
+                session_message_types = set(FIXProtocol44.session_message_types) | {"U1"}
+
+            _PROTO[name] = ProtoSess
+        elif name == "bs42":  # other BeginString
+            class ProtoBs(FIXProtocol44):
+                beginstring = "FIX.4.2"
+
+            _PROTO[name] = ProtoBs
+        else:
+            raise ValueError(name)
+    return _PROTO[name]
+
+
+DEFAULT_CFG = {"proto": "std", "hb": 30, "prejournal": 0}
+
+
+def make_initiator(effI, log, ni, no, cfg=DEFAULT_CFG):
+    """a real AsyncFIXClient (protocol class, heartbeat and journal history from `cfg`), counters set through the
+    journal, connected through its own connect()"""
     import asyncfix.connection_client as cc
     from asyncfix.journaler import Journaler
-    from asyncfix.protocol import FIXProtocol44
 
     w = world()
     cls = hooks(cc.AsyncFIXClient, effI)
     j = Journaler()
-    c = cls(FIXProtocol44(), "INIT", "ACPT", j, "h", 1, hb, logger=log)
+    c = cls(protocol_class(cfg["proto"])(), "INIT", "ACPT", j, "h", 1, cfg["hb"], logger=log)
     if (ni, no) != (1, 1):
         j.set_seq_num(c._session, next_num_out=no, next_num_in=ni)
+    # a journal that already holds the last messages of an earlier connection (rows below the counters)
+    for k in range(cfg["prejournal"]):
+        for seq, d, snd, tgt in ((no - 1 - k, w.MD.OUTBOUND, "INIT", "ACPT"), (ni - 1 - k, w.MD.INBOUND, "ACPT", "INIT")):
+            if seq >= 1:
+                _seq, (_mt, fs) = S.encode_row(snd, tgt, "D", ((11, f"old{seq}"), (58, "earlier session")), seq, T0 - 5000)
+                j.cursor.execute("INSERT INTO message VALUES(?, ?, ?, ?)", (seq, c._session.key, d.value, S.fields_to_bytes(fs)))
+    j.conn.commit()
     writer = S._Writer(effI)
 
     async def open_connection(host, port):
@@ -215,12 +320,12 @@ def written(eff, start):
 class TSetup:
     """the tester: real initiator + FIXTester(schema, initiator)"""
 
-    def __init__(self, ni, no, use_schema=False):
+    def __init__(self, ni, no, use_schema=False, cfg=DEFAULT_CFG):
         from asyncfix import FIXTester
 
         self.effI, self.effA = [], []
         self.log = Log(lambda who: self.effA if who is getattr(self, "ca", None) else self.effI)
-        self.ci = make_initiator(self.effI, self.log, ni, no)
+        self.ci = make_initiator(self.effI, self.log, ni, no, cfg)
         schema = None
         if use_schema:
             from . import c20
@@ -284,6 +389,7 @@ class TSetup:
                 else:
                     out = "accRaised"
                     self.effA.append(("R", S.exc_kind(e)))
+        self.struct = delivered_struct(self.effI)
         return " # ".join([out, canon(self.effI), canon(self.effA, True), dump_conn(self.ci), dump_conn(self.ca),
                            self.que_tokens()])
 
@@ -291,17 +397,17 @@ class TSetup:
 class LSetup:
     """two real endpoints: the same initiator class and an AsyncFIXDummyServer subclass"""
 
-    def __init__(self, ni, no):
+    def __init__(self, ni, no, cfg=DEFAULT_CFG):
         import asyncfix.connection_server as csrv
         from asyncfix.journaler import Journaler
-        from asyncfix.protocol import FIXProtocol44
 
         self.effI, self.effA = [], []
         self.log = Log(lambda who: self.effA if who is getattr(self, "ca", None) else self.effI)
-        self.ci = make_initiator(self.effI, self.log, ni, no)
+        self.ci = make_initiator(self.effI, self.log, ni, no, cfg)
         cls = hooks(csrv.AsyncFIXDummyServer, self.effA)
         j = Journaler()
-        self.ca = cls(FIXProtocol44(), "ACPT", "INIT", j, "h", 1, 30, logger=self.log)
+        # the counterparty is configured like the initiator (same protocol class); heartbeat 30 as the tester's
+        self.ca = cls(protocol_class(cfg["proto"])(), "ACPT", "INIT", j, "h", 1, 30, logger=self.log)
         if (ni, no) != (1, 1):
             j.set_seq_num(self.ca._session, next_num_out=ni, next_num_in=no)
         S.run_coro(self.ca._handle_accept(object(), S._Writer(self.effA)))
@@ -329,6 +435,7 @@ class LSetup:
         n_r2 = len(er)
         read_task(rcv, written(es, n_s))
         quiet = not written(er, n_r2)
+        self.struct = delivered_struct(self.effI)
         return " # ".join(["1" if quiet else "0", canon(self.effI), canon(self.effA), dump_conn(self.ci), dump_conn(self.ca)])
 
 
@@ -339,7 +446,26 @@ MID = ["appI", "appA", "trI", "trA", "hbI", "hbA"]
 LOGON = ("A", [(98, "0"), (108, "30")])
 
 
-def payload(rng, k, direction):
+def group_payload(rng, k, direction):
+    """application message carrying repeating groups: NoContraBrokers (known to the `grp` protocol only), a group of
+    user tags (likewise), NoPartyIDs (known to the stock protocol); 1-3 items"""
+    n = rng.choice([1, 2, 2, 3])
+    tags = [(11, f"g{k}"), (37, "1")]
+    which = rng.random()
+    if which < 0.5:
+        tags.append((382, [[(375, f"broker{i}"), (337, f"trader{i}")] + ([(437, str(10 + i))] if rng.random() < 0.5 else [])
+                           for i in range(n)]))
+    elif which < 0.75:
+        tags.append((20001, [[(20002, f"u{i}"), (20003, "x")] for i in range(n)]))
+    else:
+        tags.append((453, [[(448, f"party{i}"), (447, "D"), (452, "1")] for i in range(n)]))
+    tags.append((58, rng.choice(["after the group", "café"])))
+    return ("D" if direction == "I" else "8", tags)
+
+
+def payload(rng, k, direction, groups=False):
+    if groups and rng.random() < 0.6:
+        return group_payload(rng, k, direction)
     kind = rng.random()
     if kind < 0.5:
         return ("D" if direction == "I" else "8", [(11, f"c{k}"), (58, rng.choice(["text", "fill 1/8", "x" * 40, "café", "grüß ÿ"]))])
@@ -352,13 +478,13 @@ def payload(rng, k, direction):
                   (151, "10.0"), (55, "T"), (44, "100.0"), (38, "10.0"), (6, "0.0"), (1, "000000")])
 
 
-def op_of(name, rng, k):
+def op_of(name, rng, k, cfg=DEFAULT_CFG):
     if name == "logon":
-        return ("isend", LOGON)
+        return ("isend", ("A", [(98, "0"), (108, str(cfg["hb"]))]))
     if name == "appI":
-        return ("isend", payload(rng, k, "I"))
+        return ("isend", payload(rng, k, "I", cfg["proto"] == "grp"))
     if name == "appA":
-        return ("asend", payload(rng, k, "A"))
+        return ("asend", payload(rng, k, "A", cfg["proto"] == "grp"))
     if name == "trI":
         return ("itestreq",)
     if name == "trA":
@@ -408,32 +534,42 @@ def clean_script(rng, max_len):
 
 def op_tokens(op):
     if op[0] in ("isend", "asend"):
-        return f"{op[0]} {S.msg_tok(op[1])}"
+        return f"{op[0]} {S.msg_tok(flat_spec(op[1]))}"
     return op[0]
 
 
-def run_script(names, counters, seed, use_schema=False, fuel=8):
-    """replay one script on T and L; returns the per-step records"""
+def run_script(names, counters, seed, use_schema=False, fuel=8, cfg=DEFAULT_CFG):
+    """replay one script on T and L; returns the per-step records (an exception while the set-ups are built is
+    a record of its own)"""
     import random
 
     rng = random.Random(seed)
     ni, no = counters
-    T, L = TSetup(ni, no, use_schema), LSetup(ni, no)
+    try:
+        T, L = TSetup(ni, no, use_schema, cfg), LSetup(ni, no, cfg)
+    except Exception as e:  # noqa
+        return [{"name": "init", "setup_raised": f"{type(e).__name__}: {e}"}]
     recs = [{"name": "init", "t_init": (dump_conn(T.ci), dump_conn(T.ca)), "l_init": (dump_conn(L.ci), dump_conn(L.ca))}]
     now = T0
     for k, name in enumerate(names):
         now += 1000
-        op = op_of(name, rng, k)
+        op = op_of(name, rng, k, cfg)
         stamp = S.stok(S.stamp(now))
         t_pre = (dump_conn(T.ci), dump_conn(T.ca), T.que_tokens())
         l_pre = (dump_conn(L.ci), dump_conn(L.ca))
-        t_out = T.step(op, now)
-        l_out = L.step(op, now)
+        try:
+            t_out, t_struct = T.step(op, now), T.struct
+        except Exception as e:  # noqa  (the harness's own canonicalisation must not hide an implementation fault)
+            t_out, t_struct = f"harness-raised {type(e).__name__}: {e}", None
+        try:
+            l_out, l_struct = L.step(op, now), L.struct
+        except Exception as e:  # noqa
+            l_out, l_struct = f"harness-raised {type(e).__name__}: {e}", None
         recs.append({
             "name": name, "op": op,
             "t_line": f"tst.tstep all all {fuel} {now} {stamp} {t_pre[0]} | {t_pre[1]} | {t_pre[2]} OP {op_tokens(op)}",
             "l_line": f"tst.lstep all all {now} {stamp} {l_pre[0]} | {l_pre[1]} OP {op_tokens(op)}",
-            "t_out": t_out, "l_out": l_out,
+            "t_out": t_out, "l_out": l_out, "t_struct": t_struct, "l_struct": l_struct,
         })
     return recs
 
@@ -442,6 +578,8 @@ def lockstep_diff(rec):
     """what the initiator (and an observer of the acceptor's state) can tell apart between T and L in one step"""
     t = rec["t_out"].split(" # ")
     l = rec["l_out"].split(" # ")
+    if t[0].startswith("harness-raised") or l[0].startswith("harness-raised"):
+        return "unrenderable:" + (t[0] if t[0].startswith("harness") else l[0])[:60]
     if t[0] != "done":
         return f"tester-outcome:{t[0]}"
     if l[0] != "1":
@@ -459,6 +597,8 @@ def lockstep_diff(rec):
         return "frames-from-acceptor"
     if t[1] != l[1]:
         return "initiator-trace"
+    if rec.get("t_struct") != rec.get("l_struct"):
+        return "delivered-message-structure"
     if t[3] != l[3]:
         a, b = S.parse_conn_tokens(t[3]), S.parse_conn_tokens(l[3])
         if (a.state, a.role) != (b.state, b.role):
@@ -483,6 +623,12 @@ def lockstep_diff(rec):
 COUNTERS = [(1, 1), (1, 1), (1, 1), (5, 7), (12, 4), (40, 41)]
 
 
+def gen_cfg(rng):
+    """configuration of the initiator under the tester: protocol class, heartbeat, journal history"""
+    return {"proto": rng.choice(["std"] * 5 + ["grp"] * 3 + ["sess"]), "hb": rng.choice([30, 30, 5, 60, 1]),
+            "prejournal": rng.choice([0, 0, 0, 1, 3])}
+
+
 def gen_scripts(ctx, n, max_len, exhaustive_len):
     import itertools
 
@@ -491,9 +637,9 @@ def gen_scripts(ctx, n, max_len, exhaustive_len):
     for ln in range(0, exhaustive_len + 1):
         for mid in itertools.product(MID, repeat=ln):
             for end in ([], ["logoutI"], ["logoutA"]) if ln <= 2 else ([],):
-                out.append((["logon"] + list(mid) + end, (1, 1)))
+                out.append((["logon"] + list(mid) + end, (1, 1), DEFAULT_CFG))
     while len(out) < n:
-        out.append((clean_script(rng, max_len), rng.choice(COUNTERS)))
+        out.append((clean_script(rng, max_len), rng.choice(COUNTERS), gen_cfg(rng)))
     return out
 
 
@@ -511,12 +657,19 @@ def correspondence(ctx, drv):
         names = clean_script(rng, 6)
         pos = rng.randrange(0, len(names) + 1)
         names.insert(pos, rng.choice(UNCLEAN))
-        scripts.append((names, rng.choice(COUNTERS)))
+        scripts.append((names, rng.choice(COUNTERS), gen_cfg(rng)))
     lines, index, all_recs = [], [], []
-    for si, (names, counters) in enumerate(scripts):
-        recs = run_script(names, counters, f"{ctx.seed}/{si}")
-        all_recs.append((names, counters, recs))
+    for si, (names, counters, cfg) in enumerate(scripts):
+        recs = run_script(names, counters, f"{ctx.seed}/{si}", cfg=cfg)
+        all_recs.append((names, counters, recs, cfg))
+        inc(f"cfg:proto={cfg['proto']}")
+        inc(f"cfg:hb={cfg['hb']}")
+        inc(f"cfg:prejournal={cfg['prejournal']}")
         init = recs[0]
+        if "setup_raised" in init:
+            dis.append({"input": {"kind": "script", "names": names[:1], "counters": list(counters), "seed": f"{ctx.seed}/{si}",
+                                  "cfg": cfg}, "model": "set-up succeeds", "impl": init["setup_raised"]})
+            continue
         lines.append("tst.mkacc " + init["t_init"][0])
         index.append((si, 0, "mkacc", init["t_init"][1]))
         lines.append("tst.realacc " + init["l_init"][0])
@@ -529,25 +682,28 @@ def correspondence(ctx, drv):
     model = drv.batch(lines) if lines else []
     bad = set()
     for ml, (si, k, which, il) in zip(model, index):
-        names, counters, recs = all_recs[si]
+        names, counters, recs, cfg = all_recs[si]
         if which in ("t", "l"):
             inc(f"wire:{which}:{recs[k]['name']}")
+            op = recs[k]["op"]
+            if len(op) > 1 and any(isinstance(v, list) for _t, v in op[1][1]):
+                inc("wire:group-payload:" + "/".join(str(len(v)) for _t, v in op[1][1] if isinstance(v, list)) + "-items")
             distinct.add((which, recs[k]["name"], il.split(" # ")[0], il.split(" # ")[3][:8], counters))
         if which == "t" and il.startswith("nestedRaise"):
             il, ml = il.split(" # ")[0], ml.split(" # ")[0]  # outside the model: only the outcome is claimed
         if il != ml and (si, which) not in bad:
             bad.add((si, which))
             dis.append({"input": {"kind": "script", "names": names[: max(k, 1)], "counters": list(counters),
-                                  "seed": f"{ctx.seed}/{si}", "which": which, "step": k},
+                                  "seed": f"{ctx.seed}/{si}", "which": which, "step": k, "cfg": cfg},
                         "model": ml, "impl": il})
     if all_recs:
-        names, counters, recs = all_recs[0]
+        names, counters, recs, _cfg = all_recs[0]
         samples.append({"input": {"script": names, "step": recs[-1]["t_line"][:300]}, "model": recs[-1]["t_out"][:300]})
     return {
         "evaluations": len(lines), "distinct": len(distinct), "branches": branches, "samples": samples, "disagreements": dis,
         "rule": "%d clean scripts (logon, then application messages / TestRequest / Heartbeat either way, optional Logout by "
         "either side; all scripts with ≤ %d middle steps exhaustively, the rest random up to length %d, synchronised start counters "
-        "from a small set, payload text incl. non-ASCII latin-1) and %d scripts with one unclean step (message before Logon, reply of a SequenceReset without 34, reply with "
+        "from a small set, payload text incl. non-ASCII latin-1; random scripts run under a random CONFIGURATION of the initiator: stock protocol / a subclass with two more repeating groups (then 60%% of the application messages carry 1-3 items of a group only that subclass knows, or of a stock group) / a subclass with another session_message_types set, heartbeat 30/5/60/1, 0/1/3 rows of an earlier session in the journal) and %d scripts with one unclean step (message before Logon, reply of a SequenceReset without 34, reply with "
         "its own 34, text outside latin-1 either way, TestRequest through send_msg); every step replayed on the real FIXTester and on a "
         "real AsyncFIXDummyServer endpoint (reader task, fake transports) and compared with tst.tstep / tst.lstep: outcome, "
         "both effect traces, both connection states incl. journals, the tester's queue; mkAcceptor / realAcceptor vs the "
@@ -555,19 +711,34 @@ def correspondence(ctx, drv):
     }
 
 
+WITNESS_BS = {"proto": "bs42", "hb": 30, "prejournal": 0}
+
+
 def oracle(ctx, failures, stats, disagreements, broken):
     rng = ctx.rng
-    scripts = gen_scripts(ctx, ctx.n(120, 800) * (3 if broken else 1), ctx.n(8, 12), ctx.n(2, 3))
+    scripts = gen_scripts(ctx, ctx.n(120, 800) * (3 if broken else 1), ctx.n(8, 12), ctx.n(1, 2))
+    scripts = [(n, c, cfg, None) for n, c, cfg in scripts]
     # regression of the repaired finding C20-reply-nonascii-utf8: a reply with non-ASCII single-byte text
-    scripts.insert(0, (["logon", "appA-latin1", "appI"], (1, 1)))
-    for d in disagreements:
+    scripts.insert(0, (["logon", "appA-latin1", "appI"], (1, 1), DEFAULT_CFG, None))
+    # witness of the open finding: an initiator whose protocol class has another BeginString
+    scripts.insert(1, (["logon", "appI"], (1, 1), WITNESS_BS, None))
+    # a reply carrying a group only the initiator's protocol knows, 2 and 3 items
+    scripts.insert(2, (["logon", "appA", "appA", "appI", "appA"], (5, 7), {"proto": "grp", "hb": 5, "prejournal": 1}, None))
+    for d in disagreements:  # the disagreeing inputs first, replayed exactly (same seed, same configuration)
         inp = d.get("input")
         if isinstance(inp, dict) and inp.get("kind") == "script":
-            scripts.insert(1, (inp["names"], tuple(inp["counters"])))
-    steps = 0
-    for si, (names, counters) in enumerate(scripts):
-        seed = f"o{ctx.seed}/{si}"
-        recs = run_script(names, counters, seed)
+            scripts.insert(3, (inp["names"], tuple(inp["counters"]), inp.get("cfg", DEFAULT_CFG), inp["seed"]))
+    steps, dist = 0, {}
+    for si, (names, counters, cfg, seed) in enumerate(scripts):
+        seed = seed or f"o{ctx.seed}/{si}"
+        dist[cfg["proto"]] = dist.get(cfg["proto"], 0) + 1
+        recs = run_script(names, counters, seed, cfg=cfg)
+        if "setup_raised" in recs[0]:
+            failures.append({"signature": "C20-tester-setup-raises:" + recs[0]["setup_raised"].split(":")[0],
+                             "what": "FIXTester / the endpoints could not be built for this configuration",
+                             "input": {"kind": "script", "names": names[:1], "counters": list(counters), "seed": seed, "cfg": cfg},
+                             "observed": recs[0]["setup_raised"]})
+            continue
         for k, r in enumerate(recs[1:], 1):
             steps += 1
             diff = lockstep_diff(r)
@@ -575,18 +746,27 @@ def oracle(ctx, failures, stats, disagreements, broken):
                 continue
             if r["name"].startswith("x-"):
                 break
+            if cfg["proto"] == "bs42":
+                sig = "C20-acceptor-protocol-hardwired"
+                what = ("the simulated acceptor is always built with FIXProtocol44(): an initiator whose protocol class has another "
+                        "BeginString cannot log on to it (both sides drop the connection), a real acceptor endpoint configured like "
+                        "the initiator completes the Logon")
             else:
                 sig, what = f"C20-lockstep:{r['name']}:{diff}", "tester and real acceptor endpoint differ in a clean script"
             failures.append({"signature": sig, "what": what,
-                             "input": {"kind": "script", "names": names[:k], "counters": list(counters), "seed": seed},
-                             "expected": r["l_out"][:400], "observed": r["t_out"][:400]})
+                             "input": {"kind": "script", "names": names[:k], "counters": list(counters), "seed": seed, "cfg": cfg},
+                             "expected": (r["l_out"][:400], r.get("l_struct")), "observed": (r["t_out"][:400], r.get("t_struct"))})
             break
     stats["script_steps"] = steps
     stats["scripts"] = len(scripts)
+    stats["script_protocols"] = dist
 
 
 def replay(ctx, inp, sig):
-    recs = run_script(inp["names"], tuple(inp["counters"]), inp["seed"])
+    recs = run_script(inp["names"], tuple(inp["counters"]), inp["seed"], cfg=inp.get("cfg", DEFAULT_CFG))
+    if "setup_raised" in recs[0]:
+        print("replay: set-up raised", recs[0]["setup_raised"])
+        return True
     for r in recs[1:]:
         d = lockstep_diff(r)
         print("replay:", r["name"], "->", d)
